@@ -349,6 +349,12 @@ class DidChangeSpec:
     def __init__(self, n, k, changes=2, full_first=False):
         self.n = n; self.k = k; self.changes = changes; self.full_first = full_first
 
+    def is_full(self, e):
+        """full_first: True = the first change is a full-text one; an int i >= 1 = change number i is (a ranged one before it may have been rejected)"""
+        if self.full_first is True:
+            return e == 0
+        return self.full_first is not False and e == self.full_first
+
     def make_interp(self):
         it = vfsk.W.interp('glas', uc=True)
         vfsk.install_models(it); vfsk.install_vfs_models(it)
@@ -389,14 +395,14 @@ class DidChangeSpec:
     def witness(self, it, m=None):
         m = m or it.get_model()
         return {'doc': vfsk.eval_bytes(m, self.bs).hex(),
-                'changes': [{'range': (None if (self.full_first and e == 0) else [m.eval(p, model_completion=True).as_long() for p in self.pos[e]]),
+                'changes': [{'range': (None if self.is_full(e) else [m.eval(p, model_completion=True).as_long() for p in self.pos[e]]),
                              'text': vfsk.eval_bytes(m, self.ins[e]).hex()} for e in range(self.changes)]}
 
     def _changes(self):
         out = []
         for e in range(self.changes):
             l1, c1, l2, c2 = [IntV(p, 32, 0) for p in self.pos[e]]
-            rng = none() if (self.full_first and e == 0) else some(vfsk.lsp_range(l1, c1, l2, c2))
+            rng = none() if self.is_full(e) else some(vfsk.lsp_range(l1, c1, l2, c2))
             out.append(Agg('struct', 'TextDocumentContentChangeEvent', None, [rng, none(), StringV([IntV(b, 8, 0) for b in self.ins[e]])]))
         return out
 
@@ -421,7 +427,7 @@ class DidChangeSpec:
         forgotten = False
         for e in range(self.changes):
             ins = StrSym([IntV(b, 8, 0) for b in self.ins[e]])
-            if self.full_first and e == 0:
+            if self.is_full(e):
                 rr = it.run_body(vfsk.body('::change_file_content'), [RefV(cellB, 0), vfsspecs.FILE0(), none(), ins])
                 okk = models.shape(it, rr, ['Ok', 'Err'])[0] == 'Ok'
             else:
